@@ -83,7 +83,9 @@ def run(prog):
                      % (v, v in v_coord, v in some_set))
 
     # (c) states_has_coord closure (virtual-key toggle)
-    shc = prog.fn("kanata_state_machine::kanata::states_has_coord")
+    shc = prog.fn_opt("kanata_state_machine::kanata::states_has_coord")
+    if shc is None:
+        return _vkey_predicate_inline(prog, res, all_v, v_coord)
     clos = prog.closures_of(shc)
     res.fn(shc)
     if len(clos) != 1:
@@ -109,4 +111,38 @@ def run(prog):
             for v in sorted(set(v_coord) ^ nonfalse):
                 res.viol("states_has_coord/%s" % v, c.loc,
                          "virtual-key toggle predicate states_has_coord disagrees with the State type on variant %s" % v)
+    return res
+
+
+def _vkey_predicate_inline(prog, res, all_v, v_coord):
+    """clause (c) when the helper states_has_coord does not exist: the scan over the states sits in the virtual-key action
+    function itself (or in a helper of it that is analysed inlined). The variants the predicate looks at are those whose
+    match arm reads the `coord` field."""
+    from kq.analysis import all_operands_in_block
+    from kq.core import is_place
+    f = prog.fn_opt("kanata_state_machine::kanata::handle_fakekey_action")
+    if f is None:
+        res.viol("states_has_coord/anchor", "src/kanata/mod.rs", "neither states_has_coord nor handle_fakekey_action found")
+        return res
+    best = None
+    for g in [f] + list(prog.closures_of(f)):
+        for sw in discr_switches(prog, g, STATE):
+            reads = set()
+            for v in all_v:
+                for b in sw.arm_region(v) | ({sw.target(v)} if sw.target(v) is not None else set()):
+                    for o in all_operands_in_block(g, b):
+                        if is_place(o) and any(isinstance(e, dict) and e.get("f") == "coord" and e.get("v") == v and (e.get("adt") or "").endswith("layout::State") for e in proj(o)):
+                            reads.add(v)
+            if reads and (best is None or len(reads) > len(best[1])):
+                best = (g, reads)
+    if best is None:
+        res.viol("states_has_coord/anchor", f.loc, "the scan over the layout states that decides whether a virtual key is pressed was not found")
+        return res
+    g, reads = best
+    res.fn(g)
+    for v in all_v:
+        res.inst("states_has_coord/%s" % v, fn=g.norm, where=g.loc, may_be_true=v in reads)
+    for v in sorted(set(v_coord) ^ reads):
+        res.viol("states_has_coord/%s" % v, g.loc,
+                 "virtual-key toggle predicate disagrees with the State type on variant %s" % v)
     return res
